@@ -6,7 +6,12 @@
                           iteration of the bounded wait: sleep, test lastSend >= closeRequestSeq),
                           CForce (wait expired: write the request directly, needs oLock), and the
                           final sendQueue.DeleteAll / sendBuf.DeleteAll / close(closedChan)
-     runOutputOnceStream  OStart (take oLock), OSeg (DeleteMin + output, or release oLock when the
+     runOutputOnceStream  OStart (take oLock), ODeq (sendQueue.DeleteMin: the segment is now "in flight" inside output(), or
+                          release oLock when the queue is empty), OOut (the write to the connection completes; blocked while
+                          the pipe is full), OSeg = ODeq immediately followed by OOut.  c_lockdrain = true (the code): oLock is
+                          held from OStart to the empty queue; c_lockdrain = false (a variant): oLock only around DeleteMin.
+                          The underlay's sendMutex is the condition "nothing in flight" of CForce.
+                          (OSeg with an empty queue releases oLock when the
                           queue is empty): the whole drain holds oLock
      runOutputOncePacket  ONew (sendQueue -> sendBuf + datagram, window permitting), ORetx i
                           (retransmit the i-th segment of sendBuf), OAck (ack/heartbeat: carries
@@ -53,7 +58,8 @@ Record cfg := mkCfg {
   c_ackstamp : bool;  (* output() stores an ack's seq (nextSend-1) into lastSend *)
   c_win : N;          (* UDP: bound on |sendBuf| (congestion / remote window) *)
   c_cap : N;          (* TCP: bound on segments in flight; 0 = unbounded *)
-  c_rcap : N          (* UDP: segmentTreeCapacity: receive window = c_rcap - |recvBuf| - |recvQueue| *)
+  c_rcap : N;         (* UDP: segmentTreeCapacity: receive window = c_rcap - |recvBuf| - |recvQueue| *)
+  c_lockdrain : bool  (* TCP: runOutputOnceStream holds oLock for its whole drain (true = the code) *)
 }.
 
 Record state := mkState {
@@ -81,24 +87,25 @@ Record state := mkState {
   rd : reader;
   rlog : list N;          (* ghost: segments the application has read, newest first *)
   gap : bool;             (* ghost: a close request was acted upon while nextRecv <> n *)
-  ooo : bool              (* ghost: TCP input appended a segment whose number is not nextRecv *)
+  ooo : bool;             (* ghost: TCP input appended a segment whose number is not nextRecv *)
+  inflight : option seg   (* TCP: taken out of sendQueue by the output loop, output() not yet completed *)
 }.
 
 Definition init : state :=
-  mkState 0 [] [] 0 0 COpen 0 0 false false [] [] [] 0 [] [] false false RIdle [] false false.
+  mkState 0 [] [] 0 0 COpen 0 0 false false [] [] [] 0 [] [] false false RIdle [] false false None.
 
 (* the values of the current source tree *)
 Definition close_wait_iterations : N := Z.to_N C03_closeWaitIterations.
 Definition segment_tree_capacity : N := Z.to_N C03_segmentTreeCapacity.
 Definition current_cfg (tr : transport) (n win cap : N) : cfg :=
-  mkCfg tr n close_wait_iterations true false win cap segment_tree_capacity.
+  mkCfg tr n close_wait_iterations true false win cap segment_tree_capacity true.
 (* the tree before fixes/C03-*.diff *)
 Definition prefix_cfg (tr : transport) (n win cap : N) : cfg :=
-  mkCfg tr n close_wait_iterations false true win cap segment_tree_capacity.
+  mkCfg tr n close_wait_iterations false true win cap segment_tree_capacity true.
 
 Inductive choice :=
 | CWrite | CClose | CTick | CForce
-| OStart | OSeg | ONew | ORetx (i : nat) | OAck
+| OStart | OSeg | ODeq | OOut | ONew | ORetx (i : nat) | OAck
 | DTcp | DUdp (i : nat) | DAck (i : nat)
 | RTest | RWaitClosed | RWaitErr | RWaitNotEmpty | RAtomic
 | RInputErr | RErrClose.
@@ -110,21 +117,28 @@ Definition finish (st : state) : state :=
   mkState (written st) [] [] (nextSend st) (lastSend st) CClosed (ticks st) (closeSeq st) (olock st)
           (discarded st || existsb is_data (queue st))
           (tcpnet st) (udpnet st) (acks st)
-          (nextRecv st) (rbuf st) (rqueue st) (rclosed st) (rerr st) (rd st) (rlog st) (gap st) (ooo st).
+          (nextRecv st) (rbuf st) (rqueue st) (rclosed st) (rerr st) (rd st) (rlog st) (gap st) (ooo st) (inflight st).
 
 Definition set_sender (st : state) (w : N) (q b : list seg) (ns ls : N) (ph : cphase) (tk cs : N) (ol : bool)
                       (tn un : list seg) : state :=
   mkState w q b ns ls ph tk cs ol (discarded st) tn un (acks st)
-          (nextRecv st) (rbuf st) (rqueue st) (rclosed st) (rerr st) (rd st) (rlog st) (gap st) (ooo st).
+          (nextRecv st) (rbuf st) (rqueue st) (rclosed st) (rerr st) (rd st) (rlog st) (gap st) (ooo st) (inflight st).
 
 Definition set_peer (st : state) (ak : list N) (nr : N) (rb rq : list N) (rc re : bool) (r : reader) (lg : list N) (g : bool) : state :=
   mkState (written st) (queue st) (sbuf st) (nextSend st) (lastSend st) (cph st) (ticks st) (closeSeq st) (olock st)
-          (discarded st) (tcpnet st) (udpnet st) ak nr rb rq rc re r lg g (ooo st).
+          (discarded st) (tcpnet st) (udpnet st) ak nr rb rq rc re r lg g (ooo st) (inflight st).
 
 Definition mark_ooo (st : state) (b : bool) : state :=
   mkState (written st) (queue st) (sbuf st) (nextSend st) (lastSend st) (cph st) (ticks st) (closeSeq st) (olock st)
           (discarded st) (tcpnet st) (udpnet st) (acks st) (nextRecv st) (rbuf st) (rqueue st) (rclosed st) (rerr st) (rd st) (rlog st) (gap st)
-          (ooo st || b).
+          (ooo st || b) (inflight st).
+
+Definition set_inflight (st : state) (q : list seg) (x : option seg) (ol : bool) : state :=
+  mkState (written st) q (sbuf st) (nextSend st) (lastSend st) (cph st) (ticks st) (closeSeq st) ol
+          (discarded st) (tcpnet st) (udpnet st) (acks st) (nextRecv st) (rbuf st) (rqueue st) (rclosed st) (rerr st) (rd st) (rlog st) (gap st)
+          (ooo st) x.
+
+Definition no_inflight (st : state) : bool := match inflight st with None => true | Some _ => false end.
 
 Definition memN (x : N) (l : list N) : bool := existsb (N.eqb x) l.
 Definition removeN (x : N) (l : list N) : list N := filter (fun y => negb (N.eqb x y)) l.
@@ -202,7 +216,7 @@ Definition step (c : cfg) (st : state) (ch : choice) : option state :=
   | CForce =>
       match cph st with
       | CExpired =>
-          if negb (olock st) then
+          if negb (olock st) && no_inflight st then
             let st1 := match c_tr c with
                        | TCP => set_sender st (written st) (queue st) (sbuf st) (nextSend st) (closeSeq st) CExpired (ticks st) (closeSeq st)
                                            false (tcpnet st ++ [CloseReq (closeSeq st)]) (udpnet st)
@@ -214,7 +228,7 @@ Definition step (c : cfg) (st : state) (ch : choice) : option state :=
       | _ => None
       end
   | OStart =>
-      if is_tcp c && negb (olock st) && negb (is_closed_phase (cph st)) then
+      if is_tcp c && c_lockdrain c && negb (olock st) && negb (is_closed_phase (cph st)) then
         match queue st with
         | [] => None
         | _ => Some (set_sender st (written st) (queue st) (sbuf st) (nextSend st) (lastSend st) (cph st) (ticks st) (closeSeq st)
@@ -222,7 +236,7 @@ Definition step (c : cfg) (st : state) (ch : choice) : option state :=
         end
       else None
   | OSeg =>
-      if is_tcp c && olock st then
+      if is_tcp c && olock st && no_inflight st then
         match queue st with
         | [] => Some (set_sender st (written st) [] (sbuf st) (nextSend st) (lastSend st) (cph st) (ticks st) (closeSeq st)
                                  false (tcpnet st) (udpnet st))
@@ -231,6 +245,25 @@ Definition step (c : cfg) (st : state) (ch : choice) : option state :=
               Some (set_sender st (written st) q (sbuf st) (nextSend st) (seq_of s) (cph st) (ticks st) (closeSeq st)
                                true (tcpnet st ++ [s]) (udpnet st))
             else None
+        end
+      else None
+  | ODeq =>
+      (* lock discipline: the code holds oLock already (OStart); the variant takes it here and gives it back at once *)
+      if is_tcp c && no_inflight st && Bool.eqb (olock st) (c_lockdrain c) then
+        match queue st with
+        | [] => Some (set_inflight st [] None false)
+        | s :: q => Some (set_inflight st q (Some s) (olock st))
+        end
+      else None
+  | OOut =>
+      if is_tcp c then
+        match inflight st with
+        | Some s =>
+            if room c st then
+              Some (set_inflight (set_sender st (written st) (queue st) (sbuf st) (nextSend st) (seq_of s) (cph st) (ticks st) (closeSeq st)
+                                             (olock st) (tcpnet st ++ [s]) (udpnet st)) (queue st) None (olock st))
+            else None
+        | None => None
         end
       else None
   | ONew =>
